@@ -1,11 +1,51 @@
-import PyresampleModel.Model.Core
+import PyresampleModel.Model.C02
+import PyresampleModel.Model.C19
 
 /-
-  C03 — model (stub: not built yet).
+  C03 — how the kd-tree work is organised: row segments of the target appended through
+  `RowAppendableArray`, data reduction as an extra validity mask on the sources, the empty-result
+  shortcuts.
 -/
 namespace PyresampleModel.C03
 
+open PyresampleModel.C19
+
+/-- `get_neighbour_info` with `segments > 1`: the per-target query `q` is evaluated segment by
+segment (`geometry._get_slice`) and the results are appended to a `RowAppendableArray` reserved
+for `size` rows -/
+def segmentedQuery {β} (q : Nat → β) (size segments : Nat) : Option (List (Option β)) :=
+  let rows := (getSlice segments size).map (fun s => (List.range' s.1 (s.2 - s.1)).map q)
+  (rows.foldl RowApp.appendRow (RowApp.new size)).toArray
+
+/-- the single-segment query -/
+def plainQuery {β} (q : Nat → β) (size : Nat) : List β := (List.range size).map q
+
+/-- data reduction: the boundary window is one more mask and-ed into `valid_input_index` -/
+def reduceValid (srcValid keep : List Bool) : List Bool := List.zipWith (· && ·) srcValid keep
+
+/-- `_create_empty_info`: every target valid, every index the sentinel `source.size`;
+`_get_empty_sample`: all fill -/
+def emptyInfo (nTarget nSource : Nat) : List Bool × List Nat :=
+  (List.replicate nTarget true, List.replicate nTarget nSource)
+
+def emptySample {α} (nTarget : Nat) (fill : α) : List α := List.replicate nTarget fill
+
+/-! ### driver -/
+open Wire
+
 def handle : List String → Option String
+  | ["segq", size, segments] => do
+    -- which target index ends up in which row after segmented querying (q = identity)
+    let size ← nat? size; let seg ← nat? segments
+    if seg = 0 then some "err:value" else
+    match segmentedQuery (fun i => i) size seg with
+    | none => some "err:none"
+    | some xs => some (showList (fun | none => "garbage" | some v => toString v) xs)
+  | "reduce" :: rest => do
+    let (sv, tl) ← takeList bool? rest
+    let (keep, tl) ← takeList bool? tl
+    if tl ≠ [] ∨ sv.length ≠ keep.length then none else
+    some (showList showBool (reduceValid sv keep))
   | _ => none
 
 end PyresampleModel.C03
